@@ -54,6 +54,8 @@ func init() {
 }
 
 func runC20(c *Ctx, r *Report) {
+	importFoundation(c, r, "C20", "read-loop")
+	importFoundation(c, r, "C20", "transport-pipe")
 	r.Rule("C20/ansi-bounded", "what the read loop strips before queueing cannot span ordinary output: no unbounded repetition of the escape-sequence pattern admits ESC or newline", 1)
 	checkANSIPatternBounded(c, r, "C20/ansi-bounded")
 	r.Rule("C20/locked", "every access to Queue.queue / Queue.depth holds Queue.lock (write lock for writes)", 15)
